@@ -3,7 +3,7 @@ _REAL = ['libxalan-c (rebuilt from /repo working tree, clang -O1 -DNDEBUG, Threa
 PROP = dict(
     driver='c07', flavour='tsan', level='exploration',
     technique='deterministic simulation: real caller threads serialised by a seeded scheduler (sequential / random walk / PCT) with yield points at allocator, sink, resolver and every libxalan-c function entry; hand-over hidden from ThreadSanitizer so it still reports happens-before races; sequential baseline as output oracle; explicit schedule in the replay file',
-    level_text='Seeded exploration of schedules: 2-4 tasks (twins with identical inputs), each with its own transformer and memory manager, transform over shared compiled stylesheets and shared parsed sources (native tree and thread-safe Xerces-DOM wrapper) built by an owner transformer. Oracles: no ThreadSanitizer report, every task output and status equals the sequential baseline. Stylesheets force one lazily-initialised facility per run in rotation (keys, the three xsl:number levels, id(), document(), format-number/decimal-format, sort, attribute sets, modes, EXSLT sets, node-set). One run in four refuses one allocation in the shared objects\ In a third of the runs every reader installs an extension function of its own under one name on its transformer; the answer each gets must be its own. In a third of the runs every reader installs an extension function of its own under one name on its transformer; the answer each gets must be its own.' manager during the concurrent phase (judged there: no thread left waiting for a mutex a finished task still owns, no race, no sanitizer error); wrappers are built fully (the XercesDOMWrapperParsedSource form) or lazily with threadSafe set; one document in eight is 104 levels deep.',
+    level_text='Seeded exploration of schedules: 2-4 tasks (twins with identical inputs), each with its own transformer and memory manager, transform over shared compiled stylesheets and shared parsed sources (native tree and thread-safe Xerces-DOM wrapper) built by an owner transformer. Oracles: no ThreadSanitizer report, every task output and status equals the sequential baseline. Stylesheets force one lazily-initialised facility per run in rotation (keys, the three xsl:number levels, id(), document(), format-number/decimal-format, sort, attribute sets, modes, EXSLT sets, node-set). One run in four refuses one allocation in the shared objects\' manager during the concurrent phase (judged there: no thread left waiting for a mutex a finished task still owns, no race, no sanitizer error); wrappers are built fully (the XercesDOMWrapperParsedSource form) or lazily with threadSafe set; one document in eight is 104 levels deep. In a third of the runs every reader installs an extension function of its own under one name on its transformer; the answer each gets must be its own.',
     level_note='ThreadSanitizer sees only instrumented code (libxalan-c and the driver): races entirely inside Xerces-C/ICU are invisible. Preemption only at function entries, allocator, sink and resolver calls. The non-thread-safe wrapper mode (parseSource(useXercesDOM=true)) is excluded as the property states. Sampling, not proof.',
     design_ref='DESIGN.md section 7 (C07), 3.4',
     runs=dict(quick=3000, thorough=60000),
